@@ -25,6 +25,7 @@ func init() {
 }
 
 func runC08(c *core.Ctx) {
+	c08LoadedTrieIsShared(c)
 	const pkg = "data/state"
 	dirty := c.P.Field(pkg, "TrackableDataTrie", "dirtyData")
 	if dirty == nil {
@@ -156,4 +157,36 @@ func runC08(c *core.Ctx) {
 		})
 		c.Floor("C08/caller-buffers-only-read", 1)
 	}
+}
+
+// c08LoadedTrieIsShared: a data trie recreated from storage for one account handle is registered in
+// the per-address cache, so that a second handle of the same account works on the same instance
+// and sees what the first one saved.
+func c08LoadedTrieIsShared(c *core.Ctx) {
+	fn := anchorM(c, "data/state", "AccountsDB", "loadDataTrie")
+	if fn == nil {
+		return
+	}
+	var recreate ssa.Instruction
+	core.Instrs(fn, func(in ssa.Instruction) {
+		if cc := core.CallOf(in); cc != nil && cc.IsInvoke() && cc.Method.Name() == "Recreate" {
+			recreate = in
+		}
+	})
+	if recreate == nil {
+		c.Undecided("C08/loaded-trie-is-shared", "AccountsDB.loadDataTrie", fn.Pos(), "no Recreate call")
+		return
+	}
+	put := func(in ssa.Instruction) bool {
+		cc := core.CallOf(in)
+		if cc == nil || !cc.IsInvoke() || cc.Method.Name() != "Put" {
+			return false
+		}
+		_, f := core.FieldLoad(cc.Value)
+		return f != nil && f.Name() == "dataTries"
+	}
+	esc, path := core.PathQ{Fn: fn, From: recreate, Via: put, Target: core.NilReturn}.Escape()
+	c.Check(esc == nil, "C08/loaded-trie-is-shared", "AccountsDB.loadDataTrie", recreate.Pos(),
+		"a recreated data trie is put in the per-address cache before the load succeeds",
+		"loadDataTrie can succeed with a recreated data trie that is not registered in dataTries ("+c.P.PathString(path)+"): two handles of one account work on different trie instances and the value one of them saved is invisible to, then overwritten by, the other")
 }
